@@ -86,3 +86,32 @@ def finding_key(case, obs, model, oracle):
             and "KILL Worker.Read" in case and " mid" in case):
         return "resumed-read-of-recomputed-unordered-output"
     return None
+
+
+def t2(chk, wc, tier, seed):
+    """how (*bigmachineExecutor).Run classifies the ways a task attempt can end, regenerated from exec/bigmachine.go: every
+    non-fatal failure (the compile fails transiently, the call to the worker fails) must leave the task LOST (so that the
+    evaluator resubmits it — BS.Loss/`loss_safe` assume lost outputs are produced again), only remote fatal errors leave ERR."""
+    import re
+    import vlib
+    src = open(wc.repo + "/exec/bigmachine.go").read()
+    try:
+        i = src.index("func (b *bigmachineExecutor) Run(task *Task)")
+        body = src[i:src.index("\n}\n", i)]
+    except ValueError:
+        body = ""
+    # the `default:` arms of the compile loop and of the result switch, and what they do to the task
+    arms = re.findall(r"default:\n((?:\t\t.*\n)+?)(?=\t\}|\t\tcase )", body)
+    sets = []
+    for a in arms:
+        m = re.search(r"task\.(Set\((\w+)\)|Errorf?\()", a)
+        sets.append(m.group(2) if m and m.group(2) else ("Error" if m else "none"))
+    fatal = re.search(r"case errors\.Is\(errors\.Remote, err\) && errors\.Match\(fatalErr, err\):\n(?:\t\t.*\n)*?\t\ttask\.Error\(err\)", body) is not None
+    ok = re.search(r"case err == nil:\n(?:\t\t.*\n)*?\t\ttask\.Set\(TaskOk\)", body) is not None
+    gen = "def runDefaultArmsG : List String := [%s]\n" % ", ".join('"%s"' % s for s in sets)
+    gen += "def runFatalArmG : Bool := %s\ndef runOkArmG : Bool := %s" % ("true" if fatal else "false", "true" if ok else "false")
+    ties = [("run_classification_tie",
+             'theorem run_classification_tie : runDefaultArmsG = ["TaskLost", "TaskLost"] ∧ runFatalArmG = true ∧ runOkArmG = true := by decide',
+             "exec/bigmachine.go (*bigmachineExecutor).Run: transient compile failure and failed worker call leave the task LOST; "
+             "remote fatal errors ERR; success OK")]
+    vlib.t2_check(chk, wc, "C02", ["BS.Model.Loss"], gen, ties)
